@@ -178,15 +178,25 @@ fn source_case_mode(text: &str, inputs: &J, mode: &str) -> Report {
                 match res {
                     None => break,
                     Some(Err(e)) => {
+                        // (the session goes on after a failed statement, as in the REPL and in hosts that
+                        // evaluate statement by statement)
                         rep.tags.push("eval-error");
                         check_runtime_error(&mut rep, &e, "evaluation");
-                        break;
                     }
                     Some(Ok(v)) => {
                         rep.tags.push("eval-ok");
                         value_stages(&mut rep, &v, &heap, &env);
                     }
                 }
+            }
+            // every binding the session ended with is read back and rendered
+            let names: Option<Vec<(String, Value)>> = rep.stage("read bindings", || {
+                let mut v: Vec<(String, Value)> = env.iter().collect();
+                v.sort_by(|a, b| a.0.cmp(&b.0));
+                v
+            });
+            for (_, v) in names.unwrap_or_default() {
+                value_stages(&mut rep, &v, &heap, &env);
             }
         }
     }
@@ -693,6 +703,23 @@ fn run_all(ctx: &Ctx) -> i32 {
             }
         }
     }
+    // sessions that go on after a failed statement: a statement binds a freshly allocated value in a
+    // nested assignment and then fails; later statements allocate, then the binding is read
+    {
+        let failing = [
+            "t = sum(xs = [1, 2, \"3\"])", "[label = \"abc\" + \"d\", 1 + label]", "r = {k: (m = {a: [1]}), z: nope}", "q = (g = x => [x]) + 1", "s = (u = \"x\" + \"y\") - 1", "w = [v1 = [1], v2 = {b: v1}, v3 = nope]",
+            "do {\n  return (z = [9]) + nope\n}", "h = (k = [1, 2] via (x => [x])) into nope",
+        ];
+        let fillers = ["", "pad = [1, 2, 3]", "pad = \"pp\" + \"qq\"\npad2 = {a: 1}", "pad = x => x\npad3 = [[1]]"];
+        let reads = ["[xs, label, m, u, v1, v2, z, k]", "xs", "label + \"!\"", "m.a[0]", "g(1)", "u", "[v1, v2]", "z[0]", "k[1]", "to_string([xs, m])"];
+        for f in failing {
+            for fill in fillers {
+                for r in reads {
+                    texts.push(("session-after-failure".into(), format!("{}\n{}\n{}\n{}", f, fill, r, r)));
+                }
+            }
+        }
+    }
     // loops whose length comes from the input
     for t in ["1e15!", "9007199254740992!", "170!", "171!", "[1e15]!", "range(1e15)", "range(0, 4294967296)", "round(1, 1e15)", "round(1e300, 400)", "random(1e30)", "chunk([1], 1e30)", "slice([1], 0, 1e30)", "[1, 2][1e30]", "\"ab\"[(-1e30)]", "2 ^ 1e30", "1e308 * 10", "0 / 0", "format(\"{}{}{}\", 1)", "format(\"{\", 1)", "format(\"{0}{9}\", 1)", "split(\"abc\", \"\")", "replace(\"aaa\", \"\", \"b\")", "to_number(\"1e999\")", "to_number(\" 1\")", "convert(1, \"\", \"\")"] {
         texts.push(("extras".into(), t.to_string()));
@@ -703,7 +730,7 @@ fn run_all(ctx: &Ctx) -> i32 {
     }
     ctx.set("source_texts", json!(texts.len()));
     for (fam, t) in &texts {
-        let family: &'static str = if fam == "extras" { "extras" } else if fam == "long-values" { "long-values" } else if fam == "captured-strings" { "captured" } else if fam.starts_with("corpus") { "corpus" } else if fam.starts_with("nesting") { "nesting" } else if fam.starts_with("tokens") { "tokens" } else if fam == "tree" { "tree" } else { "chars" };
+        let family: &'static str = if fam == "extras" { "extras" } else if fam == "long-values" { "long-values" } else if fam == "session-after-failure" { "session" } else if fam == "captured-strings" { "captured" } else if fam.starts_with("corpus") { "corpus" } else if fam.starts_with("nesting") { "nesting" } else if fam.starts_with("tokens") { "tokens" } else if fam == "tree" { "tree" } else { "chars" };
         if family == "corpus" {
             cases.push(CaseSpec { timeout_is_verdict: true, family, class: fam.clone(), display: t.clone(), request: json!({"t": "src", "s": t, "mode": "static"}) });
             cases.push(CaseSpec { timeout_is_verdict: false, family, class: fam.clone(), display: t.clone(), request: json!({"t": "src", "s": t, "mode": "eval"}) });
